@@ -77,7 +77,7 @@ def run(ctx):
                                                 (isinstance(n.func, ast.Name) and n.func.id in names)) for n in ast.walk(m.node))
     pi = inp.lookup('prepare_input_for_recording')
     called_by_prepare = {n.func.attr for n in ast.walk(pi.node) if isinstance(n, ast.Call) and self_attr(n.func)}
-    icpt = one(lambda m: m.name in called_by_prepare and has_call(m, 'open'), 'interception routine')
+    icpt = one(lambda m: m.name in called_by_prepare and m.cls is fi, 'interception routine')
     above = one(lambda m: has_call(m, 'getsize'), 'size predicate')
     ser = one(lambda m: has_call(m, 'b64encode'), 'serialize')
     des = one(lambda m: has_call(m, 'b64decode'), 'deserialize')
@@ -203,8 +203,14 @@ def run(ctx):
     # whole content once: encode applied to the `content` parameter, not inside a loop; the reader reads the file with one read()
     whole = bool(enc) and enc[0].args and isinstance(enc[0].args[0], ast.Name) and enc[0].args[0].id == ser.params[0] and \
         not any(isinstance(l, (ast.For, ast.While, ast.ListComp, ast.GeneratorExp)) for l in ast.walk(ser.node))
-    reads = [n for n in ast.walk(icpt.node) if isinstance(n, ast.Call) and isinstance(n.func, ast.Attribute) and n.func.attr == 'read']
-    one_read = len(reads) == 1 and not reads[0].args and not any(isinstance(l, (ast.For, ast.While)) for l in ast.walk(icpt.node))
+    reach = [icpt]
+    for m in reach:
+        for n in ast.walk(m.node):
+            if isinstance(n, ast.Call) and self_attr(n.func) and fi.lookup(n.func.attr) is not None and fi.lookup(n.func.attr) not in reach:
+                reach.append(fi.lookup(n.func.attr))
+    reads = [n for m in reach for n in ast.walk(m.node) if isinstance(n, ast.Call) and isinstance(n.func, ast.Attribute) and n.func.attr == 'read']
+    in_loop = {id(x) for m in reach for l in ast.walk(m.node) if isinstance(l, (ast.For, ast.While, ast.ListComp, ast.GeneratorExp)) for x in ast.walk(l)}
+    one_read = len(reads) == 1 and not reads[0].args and id(reads[0]) not in in_loop
     enc_elsewhere = [n for m in fi.methods.values() if m is not ser for n in codec_calls(m, {'b64encode'})]
     cc.instance('the whole content is read once and base64-encoded once (no per-chunk encoding)', icpt.qualname, whole and one_read and not enc_elsewhere)
     if not (whole and one_read and not enc_elsewhere):
